@@ -876,6 +876,15 @@ example : (errorLocationV true
       (some (tk 3 "null" 2 21))).map String.ofList =
     ["Syntax error, unknown input:", ">select a IS", "> NOT null null", "-----------^^^^"] := by decide
 
+/-- end of input right after a token that spans lines (`… where a IS\nNOT`): the line on which the token ENDS
+is the last shown line and the caret stands one past it — the case `C19_eof_caret_uniform` covers through the
+last VIRTUAL token (`l` = the part `NOT` on line 2) -/
+example : (errorLocationV true
+      [tk 0 "select" 1 0, tk 1 "a" 1 7, tk 2 "from" 1 9, tk 1 "t" 1 14, tk 3 "where" 1 16, tk 1 "a" 1 22,
+       tk 4 "IS\nNOT" 1 24] none).map String.ofList =
+    ["Syntax error, unexpected end of query:", ">select a from t where a IS", "> NOT", "-----^"] := by decide
+example : (virt [tk 1 "a" 1 22, tk 4 "IS\nNOT" 1 24]).getLast? = some (tk 4 "NOT" 2 27) := by decide
+
 /-! ### non-vacuity of the one-piece theorems (old variant) -/
 example : layoutOK [tk 0 "select" 1 2, tk 1 "a" 2 13, tk 1 "b" 2 15, tk 1 "c" 2 17] = true := by decide
 example : msg [tk 0 "select" 1 2, tk 1 "a" 2 13, tk 1 "b" 2 15, tk 1 "c" 2 17] (some (tk 1 "c" 2 17)) =
